@@ -172,7 +172,7 @@ def _job(kw):
     bad = []
     ncmp = 0
     # basis functions may only be skipped according to the lower end of the integrals, the Nachtmann point
-    interp = op.runner.attrs["configs"].attrs["managers"]["interpolator"]
+    interp = R.manager(op.runner, "interpolator")
     for j, arg in interp.attrs.get("_below_calls", []):
         if not (isinstance(arg, A.Rat) and A.equal(arg, xi, tol=Fraction(0))):
             bad.append(("support", 0, j, f"basis function {j} is skipped according to is_below_x({A.canon(arg)[:60]}) instead of the Nachtmann point xi, "
